@@ -47,6 +47,15 @@ def run(which, tier, repo=None, procs=16):
                 tot["known_witness"].setdefault(k, v)
         tot.update(config=c, tlc=stats)
         outcomes.append(tot)
+        with core.pool(export_replay.worker_init, (repo, True), procs) as p:
+            parts = p.map(export_replay.replay_chunk, jobs[core.seed() % 3::3])
+        tot2 = {"n": 0, "vectors": 0, "attention": [], "dropped": 0, "known": {}, "known_witness": {}}
+        for r in parts:
+            for k in ("n", "vectors", "dropped"):
+                tot2[k] += r[k]
+            tot2["attention"] += r["attention"]
+        tot2.update(config=dict(c, assertions=True), tlc=stats)
+        outcomes.append(tot2)
     _judge(outcomes)
     _memo[key] = outcomes
     return outcomes
@@ -86,8 +95,11 @@ def _judge(outcomes, cap=3000):
 
 
 def classify(outcomes, res, prop):
+    seen = set()
     for out in outcomes:
-        res.add_tlc(out["tlc"])
+        if out["tlc"]["key"] not in seen:
+            seen.add(out["tlc"]["key"])
+            res.add_tlc(out["tlc"])
         res.replayed += out["n"]
         res.extra["vectors"] = res.extra.get("vectors", 0) + out["vectors"]
         for att in out["attention"]:
